@@ -5,8 +5,10 @@ pub mod c03;
 pub mod c04;
 pub mod c06;
 pub mod c07;
+pub mod c08;
 pub mod c09;
 pub mod c10;
+pub mod c11;
 pub mod c12;
 pub mod c13;
 pub mod c15;
@@ -24,8 +26,10 @@ pub fn dispatch(run: &Run) -> bool {
         "C04" => c04::run(run),
         "C06" => c06::run(run),
         "C07" => c07::run(run),
+        "C08" => c08::run(run),
         "C09" => c09::run(run),
         "C10" => c10::run(run),
+        "C11" => c11::run(run),
         "C12" => c12::run(run),
         "C13" => c13::run(run),
         "C15" => c15::run(run),
